@@ -13,6 +13,7 @@
 #include <boost/gil/extension/io/jpeg.hpp>
 #include <fstream>
 #include <cstdio>
+#include <algorithm>
 #include "lib/trace.hpp"
 namespace gil = boost::gil;
 using vt::J;
@@ -67,6 +68,7 @@ void paths(const char* fmt, const char* variant, const std::string& path, bool s
         if (small) { for (int x = 0; x < W; ++x) for (int y = 0; y < H; ++y) for (int w = 1; x + w <= W; ++w) for (int h = 1; y + h <= H; ++h) rects.push_back({x, y, w, h}); }
         else { rects.push_back({0, 0, W, H}); rects.push_back({1, 0, W - 1, H}); rects.push_back({0, 1, W, H - 1}); rects.push_back({0, H - 1, W, 1}); rects.push_back({W - 1, 0, 1, H});
                for (int i = 0; i < (A->thorough() ? 24 : 6); ++i) { int x = rng.below(W), y = rng.below(H); rects.push_back({x, y, 1 + (int)rng.below(W - x), 1 + (int)rng.below(H - y)}); } }
+        rects.erase(std::remove_if(rects.begin(), rects.end(), [](std::array<int, 4> const& r) { return r[2] < 1 || r[3] < 1; }), rects.end());     // (1-pixel-wide files)
         // group rectangles per child to bound the number of processes, but never mix different y offsets of a failing family
         size_t per = small ? 8 : 1;
         for (size_t i = 0; i < rects.size(); i += per) {
@@ -107,6 +109,13 @@ void paths(const char* fmt, const char* variant, const std::string& path, bool s
                 auto it = reader.begin(); auto end = reader.end();
                 for (int row = 0; it != end; ++it, ++row)
                     gil::copy_pixels(gil::interleaved_view(reader._info._width, 1, (typename ScanImg::view_t::x_iterator)*it, reader._scanline_length), gil::subimage_view(gil::view(dst), 0, row, reader._info._width, 1));
+                if constexpr (gil::num_channels<ScanImg>::value == 4 && gil::num_channels<Native>::value == 3) {
+                    // palette BMP rows arrive as rgba8 (alpha = the palette's reserved byte): compare the colour channels
+                    Native proj(dst.dimensions());
+                    for (int y = 0; y < dst.height(); ++y) for (int x = 0; x < dst.width(); ++x) { auto const& sp = gil::const_view(dst)(x, y); auto& dp = gil::view(proj)(x, y);
+                        gil::get_color(dp, gil::red_t()) = gil::get_color(sp, gil::red_t()); gil::get_color(dp, gil::green_t()) = gil::get_color(sp, gil::green_t()); gil::get_color(dp, gil::blue_t()) = gil::get_color(sp, gil::blue_t()); }
+                    J("Scan").boolean("threw", false).num("w", proj.width()).num("h", proj.height()).raw("pix", pix_json(gil::const_view(proj))).emit();
+                } else
                 J("Scan").boolean("threw", false).num("w", dst.width()).num("h", dst.height()).raw("pix", pix_json(gil::const_view(dst))).emit();
             } catch (std::exception& e) { J("Scan").boolean("threw", true).str("what", std::string(e.what()).substr(0, 80)).num("w", 0).num("h", 0).raw("pix", "[]").emit(); } }, 60);
         if constexpr (Any) vt::isolated([&] {
@@ -185,6 +194,28 @@ int main(int argc, char** argv) {
           if (mine()) paths<gil::targa_tag, gil::rgb8_image_t, false, false, false>("tga", f.variant, g_corpus + "/" + f.dir + "/" + f.name, false, rng);
       for (CF f : {CF{"pnm", "p4.pnm", "P4"}}) if (mine()) paths<gil::pnm_tag, gil::gray8_image_t, true, false, false>("pnm", f.variant, g_corpus + "/" + f.dir + "/" + f.name, false, rng);
       if (args.thorough()) for (CF f : {CF{"pnm", "p1.pnm", "P1"}, CF{"pnm", "p2.pnm", "P2"}, CF{"pnm", "p5.pnm", "P5"}}) if (mine()) paths<gil::pnm_tag, gil::gray8_image_t, true, false, false>("pnm", f.variant, g_corpus + "/" + f.dir + "/" + f.name, false, rng);
+    }
+    // hand-built palette and 15/16-bit BMPs of every width (GIL cannot write them): every row-padding residue, with the scanline reader
+    {
+        vt::Rng rng(args.seed * 91);
+        auto spit = [&](std::vector<unsigned char> const& b) { std::string path = g_tmp + "/hb_" + std::to_string(getpid()) + ".bmp"; FILE* f = fopen(path.c_str(), "wb"); fwrite(b.data(), 1, b.size(), f); fclose(f); return path; };
+        auto build = [&](int bppfield, int w, int h) {
+            int bits = bppfield == 15 ? 16 : bppfield; int ncol = bits <= 8 ? (1 << bits) : 0; int pitch = ((w * bits + 31) / 32) * 4; int off = 54 + 4 * ncol; std::vector<unsigned char> b(off + pitch * h, 0);
+            auto le32 = [&](int at, uint32_t v) { b[at] = v & 255; b[at + 1] = (v >> 8) & 255; b[at + 2] = (v >> 16) & 255; b[at + 3] = (v >> 24) & 255; };
+            b[0] = 'B'; b[1] = 'M'; le32(2, (uint32_t)b.size()); le32(10, off); le32(14, 40); le32(18, w); le32(22, h); b[26] = 1; b[28] = (unsigned char)bppfield; le32(34, pitch * h); le32(46, ncol);
+            for (int i = 0; i < ncol; ++i) { b[54 + 4 * i] = (unsigned char)rng.next(); b[55 + 4 * i] = (unsigned char)rng.next(); b[56 + 4 * i] = (unsigned char)rng.next(); }
+            for (int y = 0; y < h; ++y) for (int k = 0; k < pitch; ++k) b[off + y * pitch + k] = (unsigned char)rng.next();
+            return b; };
+        int WMAX = args.thorough() ? 72 : 41;
+        for (int bpp : {1, 4, 8, 15, 16}) for (int w = 1; w <= WMAX; ++w) {
+            if (bpp == 8 && w % 3 && !args.thorough()) continue;
+            if (bpp >= 15 && w > 24 && w % 4 && !args.thorough()) continue;
+            if (!mine()) continue;
+            std::string path = spit(build(bpp, w, 2 + w % 2)); std::string variant = "hand/" + std::to_string(bpp) + "bpp/w" + std::to_string(w);
+            if (bpp <= 8) paths<gil::bmp_tag, gil::rgb8_image_t, true, true, false, gil::rgba8_image_t>("bmp", variant.c_str(), path, false, rng);
+            else paths<gil::bmp_tag, gil::rgb8_image_t, true, true, false, gil::rgb8_image_t>("bmp", variant.c_str(), path, false, rng);
+            remove(path.c_str());
+        }
     }
     J("End").num("events", vt::T().events).emit(); vt::T().close(); return 0;
 }
